@@ -62,9 +62,8 @@ def body_store_roundtrip(value, other):
     try:
         _setter(store, prop, prop_v)
     except Exception:
-        # a refused set must leave the property unset
-        got = _getter(mstore.open_store(kind, _store.PATH), prop)
-        return (got is None, "refused")
+        # every value of the grammar is settable: a setter that raises is a failure, not a refusal
+        return (False, "set-raised")
     ok = _getter(store, prop) == prop_v
     fresh = mstore.open_store(kind, _store.PATH)  # restart
     ok = ok and _getter(fresh, prop) == prop_v
